@@ -226,14 +226,16 @@ Print Assumptions statement_semantics.
 (* ... hence the whole read path under the statement the service really sends: the database holds, for every ingested
    profile (timestamp, names of its sample types, samples), the tree the writer stores for it (stored_tree); for a
    statement of the accepted shape the answer exists and whatever MergeTrie makes of it conserves, and the bars under
-   its root add up to the weights of the profiles in the statement's window that have the selected type. *)
-Theorem statement_read_path : forall (h : N -> N -> N) (na : N) (toks : list Z) (ty : nat) (s : merge_stmt) (D : list pentry),
+   its root add up to the weights of the profiles in the statement's window that have the selected type.
+   [fcol] = the `functions` column of every entry: any (a statement of the accepted shape never looks at it). *)
+Theorem statement_read_path : forall (h : N -> N -> N) (na : N) (fcol : pentry -> list (N * Z)) (toks : list Z) (ty : nat)
+    (s : merge_stmt) (D : list pentry),
   stmt_ok ty s = true ->
   let tok := nth ty toks (-2) in
   let Ps := map snd (filter (in_window (ms_from s) (ms_to s)) (map (stored_of tok) D)) in
   Forall (stored_ok h na) Ps ->
   Z.of_nat (length (concat (map (stored_rows h na) Ps))) <= ms_limit s ->
-  exists rows, eval_merge_stmt toks s (map (sprof_of h na) D) = Some rows /\
+  exists rows, eval_merge_stmt toks s (map (sprof_of h na fcol) D) = Some rows /\
     forall fs, let out := rows_of (m_nodes (merge_trie (ms_limit s) new_tree rows fs)) in
                rconserves out /\ eqm (rchild_tot out 0%N) (sumZ (map stored_weight Ps)).
 Proof. exact ProfSqlProofs.statement_read_path. Qed.
@@ -243,8 +245,76 @@ Example statement_read_path_applies :
   stmt_ok 0 ex_stmt = true /\
   let Ps := map snd (filter (in_window (ms_from ex_stmt) (ms_to ex_stmt)) (map (stored_of 0) ex_D)) in
   Forall (stored_ok city16 0%N) Ps /\ length (concat (map (stored_rows city16 0%N) Ps)) = 12%nat /\
-  option_map (@length row) (eval_merge_stmt [0] ex_stmt (map (sprof_of city16 0%N) ex_D)) = Some 6%nat.
+  option_map (@length row) (eval_merge_stmt [0] ex_stmt (map (sprof_of city16 0%N (fun _ => [])) ex_D)) = Some 6%nat.
 Proof. exact ex_stmt_hypotheses. Qed.
+
+(* SELECT DISTINCT in the innermost (raw) select -- a shape stmt_ok refuses (accepted_shape_has_no_distinct) and the
+   evaluator interprets: rows of `raw` (one per stored profile: projected tree array, functions array) that are equal
+   collapse BEFORE the ARRAY JOIN / GROUP BY sum.  For EVERY statement and database: the statement with DISTINCT answers
+   what the statement without it answers on the window with the repeated profiles removed (distinct_profiles: the first
+   profile of every class of equal raw rows) ... *)
+Theorem accepted_shape_has_no_distinct : forall (ty : nat) (s : merge_stmt), stmt_ok ty s = true -> ms_distinct s = false.
+Proof. exact stmt_ok_not_distinct. Qed.
+Print Assumptions accepted_shape_has_no_distinct.
+
+Theorem distinct_reads_distinct_profiles : forall (toks : list Z) (s : merge_stmt) (db : list sprof),
+  ms_distinct s = true ->
+  eval_merge_stmt toks s db = eval_merge_stmt toks (undistinct s) (distinct_profiles toks s db).
+Proof. exact eval_distinct. Qed.
+Print Assumptions distinct_reads_distinct_profiles.
+
+(* ... so, with the rest of the shape as accepted, it computes the GROUP BY sums over the window WITHOUT its repeated
+   profiles (a multiset of stored profiles is read as a set) ... *)
+Theorem distinct_statement_semantics : forall (toks : list Z) (ty : nat) (s : merge_stmt) (db : list sprof),
+  ms_distinct s = true -> stmt_ok ty (undistinct s) = true ->
+  let pre := pre_rows (nth ty toks (-2)) (undistinct s) (distinct_profiles toks s db) in
+  Forall row_in_range pre -> Z.of_nat (length (group_rows pre)) <= ms_limit s ->
+  exists rows, eval_merge_stmt toks s db = Some rows /\ Permutation rows (group_rows pre).
+Proof. exact stmt_semantics_distinct. Qed.
+Print Assumptions distinct_statement_semantics.
+
+(* ... it is harmless exactly when no two profiles of the window give the same raw row ... *)
+Theorem distinct_harmless_without_repeats : forall (toks : list Z) (s : merge_stmt) (db : list sprof),
+  ForallOrdPairs (fun p q => same_raw toks s p q = false) (filter (in_win s) db) ->
+  eval_merge_stmt toks s db = eval_merge_stmt toks (undistinct s) db.
+Proof. exact ProfSqlProofs.distinct_harmless_without_repeats. Qed.
+Print Assumptions distinct_harmless_without_repeats.
+
+(* ... and it is NOT harmless for the property: for every hash, every profile whose weight on the selected type is not 0
+   modulo 2^64, ingested twice inside the window (same functions column), the flame graph the statement with DISTINCT
+   yields carries the weight of ONE copy -- not the sum of the inputs.  (Replayed on the real planner with the seeded
+   change C16-e: corpus classes same-profile-twice, profile-repeated-a-b-a.) *)
+Theorem distinct_statement_refuted : forall (h : N -> N -> N) (na : N) (fcol : pentry -> list (N * Z)) (toks : list Z) (ty : nat)
+    (s : merge_stmt) (ts1 ts2 : Z) (names : list Z) (nt : nat) (ss : list sample),
+  ms_distinct s = true -> stmt_ok ty (undistinct s) = true ->
+  ms_from s <= ts1 < ms_to s -> ms_from s <= ts2 < ms_to s ->
+  fcol (ts1, names, nt, ss) = fcol (ts2, names, nt, ss) ->
+  let tok := nth ty toks (-2) in
+  let P := {| sp_nt := nt; sp_samples := ss; sp_sel := first_index tok names |} in
+  stored_ok h na P -> Z.of_nat (length (stored_rows h na P)) <= ms_limit s ->
+  ~ eqm (stored_weight P) 0 ->
+  exists rows, eval_merge_stmt toks s (map (sprof_of h na fcol) [(ts1, names, nt, ss); (ts2, names, nt, ss)]) = Some rows /\
+    forall fs, let out := rows_of (m_nodes (merge_trie (ms_limit s) new_tree rows fs)) in
+               eqm (rchild_tot out 0%N) (stored_weight P) /\
+               ~ eqm (rchild_tot out 0%N) (stored_weight P + stored_weight P).
+Proof. exact ProfSqlProofs.distinct_statement_refuted. Qed.
+Print Assumptions distinct_statement_refuted.
+
+(* the hypotheses are met by ex_profile scraped twice and read on its first sample type: total 12 with DISTINCT, 24 without *)
+Example distinct_statement_refuted_applies :
+  let P := {| sp_nt := 2; sp_samples := ex_profile; sp_sel := first_index 0 [0; 1] |} in
+  ms_distinct ex_stmt_distinct = true /\ stmt_ok 0 (undistinct ex_stmt_distinct) = true /\
+  stored_ok city16 0%N P /\ Z.of_nat (length (stored_rows city16 0%N P)) <= ms_limit ex_stmt_distinct /\
+  stored_weight P mod two64 = 12 /\
+  option_map (fun rows => rchild_tot (rows_of (m_nodes (merge_trie the_limit new_tree rows []))) 0%N)
+    (eval_merge_stmt [0] ex_stmt_distinct
+       (map (sprof_of city16 0%N (fun _ => [])) [(0, [0; 1], 2%nat, ex_profile); (1000000000, [0; 1], 2%nat, ex_profile)]))
+  = Some 12 /\
+  option_map (fun rows => rchild_tot (rows_of (m_nodes (merge_trie the_limit new_tree rows []))) 0%N)
+    (eval_merge_stmt [0] ex_stmt
+       (map (sprof_of city16 0%N (fun _ => [])) [(0, [0; 1], 2%nat, ex_profile); (1000000000, [0; 1], 2%nat, ex_profile)]))
+  = Some 24.
+Proof. exact ProfSqlProofs.distinct_statement_refuted_applies. Qed.
 
 (* GROUP BY with wrapping sums keeps conservation and never needs more rows than the raw hand-over *)
 Theorem grouping_keeps_conservation : forall rows : list row,
